@@ -7,6 +7,7 @@ pub mod prep;
 pub mod reference;
 pub mod run;
 pub mod set;
+pub mod soup;
 pub mod spec;
 
 use serde::{Deserialize, Serialize};
